@@ -214,6 +214,14 @@ func c14(c *Ctx) {
 		if fi == unm {
 			continue
 		}
+		// a local Session value (struct copy with freshly allocated maps, e.g. GetSessions) is not state
+		if id, ok := ast.Unparen(w.recv).(*ast.Ident); ok {
+			if v, ok := astx.Obj(fi.Info(), id).(*types.Var); ok {
+				if _, isStruct := v.Type().Underlying().(*types.Struct); isStruct {
+					continue
+				}
+			}
+		}
 		info := fi.Info()
 		g := c.Graph(fi)
 		v := g.VertexOf(w.node)
